@@ -91,6 +91,7 @@ struct World
   AnamHermite* anam = nullptr;
   Selectivity* sel = nullptr;
   Db* produced = nullptr;  // data base returned by the call itself (simulation_refine)
+  std::vector<Db*> aux;    // further data bases which are pure inputs of the call (auxiliary / reference Dbs)
 };
 static const int NOSTATUS = 99;  // entry point without error code (krigtest)
 struct Scenario
@@ -248,6 +249,22 @@ static void build_scenarios2()
       [](World& w) { return dbRegression(w.dbout, "z1", {"x1", "x2"}); });
   add("dbStatisticsOnGrid-num-radius", [](World& w) { w.dbin = data2d(); w.dbout = grid2d(); },
       [](World& w) { return dbStatisticsOnGrid(w.dbin, dynamic_cast<DbGrid*>(w.dbout), EStatOption::NUM, 1); });
+
+  // ---- entry points taking a further data base which is a pure input: it is a distinct object here
+  auto auxdb = [](bool large) {
+    std::vector<std::vector<double>> cols = {{0.25, 1.75, 0.5, 1.5, 1.25, 0.75}, {0.5, 0.25, 1.5, 1.75, 1., 2.25}, {0.5, 1.5, 2.5, 1., 2., 3.}, {2., 1., 3., 1.5, 2.5, 0.5}};
+    std::vector<std::string> names = {"x1", "x2", "a1", "a2"}, locs = {"x1", "x2", "z1", "z2"};
+    if (large) for (int k = 0; k < 4; k++) { cols.push_back({1., 2., 3., 4., 5., 6.}); names.push_back("b" + std::to_string(k + 1)); locs.push_back(k == 0 ? "z3" : ""); }
+    return make_db(cols, names, locs);
+  };
+  add("dbRegression-db2-smaller", [auxdb](World& w) { w.dbout = data2d(); w.aux.push_back(auxdb(false)); },
+      [](World& w) { return dbRegression(w.dbout, "z1", {"a1", "a2"}, 0, true, w.aux[0]); });
+  add("dbRegression-db2-larger", [auxdb](World& w) { w.dbout = data2d(); w.aux.push_back(auxdb(true)); },
+      [](World& w) { return dbRegression(w.dbout, "z1", {"a1", "a2"}, 0, true, w.aux[0]); });
+  add("migrateByAttribute", [](World& w) { w.dbin = data2d(2); w.dbout = grid2d(); },
+      [](World& w) { return migrateByAttribute(w.dbin, w.dbout, {w.dbin->getUID("z1")}); });
+  add("kriging-larger-input", [](World& w) { w.dbin = data2d(); w.dbin->addColumnsByConstant(6, 2.5, "pad", ELoc::UNKNOWN); w.dbout = targets2d(); w.model = model2d(); w.neigh = NeighUnique::create(); },
+      [](World& w) { return kriging(w.dbin, w.dbout, w.model, w.neigh); });
   // ---- CalcSimuPost
   add("simuPost", [](World& w) {
         VectorDouble t; for (int k = 0; k < 32; k++) t.push_back(0.5 * ((5 * k) % 16));
@@ -295,62 +312,70 @@ static void build_scenarios2()
 
 
 // ------------------------------------------------------------------------------------------------------------
-// documented output variables (NamingConvention prefix + input variable name + qualifier [+ rank]) of every scenario
+// documented output variables (NamingConvention prefix + input variable name + qualifier [+ rank]) of every scenario.
+// "name|Z0": the variable must hold that role; "name": it must hold no role; "name|?": role not judged (it is an
+// incidental by-product of successive renamings in the library)
 static const std::map<std::string, std::vector<std::string>>& expected_names()
 {
   static std::map<std::string, std::vector<std::string>> E = {
-    {"kriging", {"Kriging.z1.estim", "Kriging.z1.stdev"}},
-    {"kriging-moving-points", {"Kriging.z1.estim", "Kriging.z1.stdev", "Kriging.z1.varz"}},
-    {"kriging-extdrift", {"Kriging.z1.estim", "Kriging.z1.stdev"}},
+    {"kriging", {"Kriging.z1.estim|Z0", "Kriging.z1.stdev"}},
+    {"kriging-moving-points", {"Kriging.z1.estim|Z0", "Kriging.z1.stdev", "Kriging.z1.varz"}},
+    {"kriging-extdrift", {"Kriging.z1.estim|Z0", "Kriging.z1.stdev"}},
     {"krigtest", {}},
-    {"xvalid", {"Xvalid.z1.esterr", "Xvalid.z1.stderr"}},
-    {"test_neigh", {"Neigh.z1.Number", "Neigh.z1.MaxDist", "Neigh.z1.MinDist", "Neigh.z1.NbNESect", "Neigh.z1.NbCESect"}},
-    {"krigcell", {"KrigCell.z1.estim", "KrigCell.z1.stdev"}},
-    {"simtub-nc", {"Simu.1", "Simu.2"}},
-    {"simtub-cond", {"Simu.z1.1", "Simu.z1.2"}},
-    {"migrate", {"Migrate"}},  // default naming convention of migrate() has flag_varname = false
-    {"migrateByLocator", {"Migrate.z1", "Migrate.z2"}},
-    {"migrateMulti", {"Migrate.z1", "Migrate.z2"}},
-    {"dbStatisticsOnGrid", {"Stats.z1"}},
-    {"dbStatisticsOnGrid-num-radius", {"Stats.z1"}},
-    {"inverseDistance", {"InvDist.z1.estim"}},
-    {"nearestNeighbor", {"Nearest.z1.estim"}},
-    {"movingAverage", {"MovAve.z1.estim"}},
-    {"movingMedian", {"MovMed.z1.estim"}},
-    {"leastSquares", {"LstSqr.z1.estim"}},
-    {"dbg2gCopy", {"Copy.z1"}},
-    {"dbg2gExpand", {"Expand.z1"}},
-    {"dbg2gShrink", {"Shrink.z1"}},
-    {"dbg2gInterpolate", {"Interpolation"}},  // default naming convention has flag_varname = false
-    {"simfft", {"FFT.1", "FFT.2"}},
-    {"krimage", {"Filtering.z1"}},
-    {"dbMorpho", {"Morpho.z1.THRESH"}},
-    {"dbSmoother", {"Smooth.z1"}},
-    {"rawToGaussianByLocator", {"Y.z1"}},
-    {"rawToGaussian", {"Y.z1"}},
-    {"normalScore", {"Gaussian.z1"}},
-    {"gaussianToRawByLocator", {"Z.gauss"}},
-    {"rawToFactor", {"Factor.z1.1", "Factor.z1.2"}},
-    {"ConditionalExpectation", {"CE.G.estim.T-estim-0", "CE.G.estim.T-estim-1.5", "CE.G.estim.T-stdev-0", "CE.G.estim.T-stdev-1.5", "CE.G.estim.Q-estim-0", "CE.G.estim.Q-estim-1.5", "CE.G.estim.Q-stdev-0", "CE.G.estim.Q-stdev-1.5"}},
-    {"UniformConditioning", {"UC.Z.estim.T-estim-0", "UC.Z.estim.T-estim-1.5", "UC.Z.estim.T-stdev-0", "UC.Z.estim.T-stdev-1.5", "UC.Z.estim.Q-estim-0", "UC.Z.estim.Q-estim-1.5", "UC.Z.estim.Q-stdev-0", "UC.Z.estim.Q-stdev-1.5"}},
-    {"DisjunctiveKriging", {"DK.T-estim-0", "DK.T-estim-1.5", "DK.T-stdev-0", "DK.T-stdev-1.5", "DK.Q-estim-0", "DK.Q-estim-1.5", "DK.Q-stdev-0", "DK.Q-stdev-1.5"}},
-    {"krigingFactors", {"KD.Factor.z1.1.estim", "KD.Factor.z1.2.estim", "KD.Factor.z1.1.stdev", "KD.Factor.z1.2.stdev"}},
-    {"kribayes", {"Bayes.z1.estim", "Bayes.z1.stdev"}},
-    {"krigprof", {"KrigProf.z1.estim", "KrigProf.z1.stdev"}},
-    {"kriggam", {"KrigGam.z1.estim", "KrigGam.z1.stdev"}},
-    {"simbayes", {"SimBayes.z1.1", "SimBayes.z1.2"}},
+    {"xvalid", {"Xvalid.z1.esterr|Z0", "Xvalid.z1.stderr"}},
+    {"test_neigh", {"Neigh.z1.Number|?", "Neigh.z1.MaxDist|?", "Neigh.z1.MinDist|?", "Neigh.z1.NbNESect|?", "Neigh.z1.NbCESect|?"}},
+    {"krigcell", {"KrigCell.z1.estim|Z0", "KrigCell.z1.stdev"}},
+    {"simtub-nc", {"Simu.1|Z0", "Simu.2|Z1"}},
+    {"simtub-cond", {"Simu.z1.1|Z0", "Simu.z1.2|Z1"}},
+    {"migrate", {"Migrate|Z0"}},  // default naming convention of migrate() has flag_varname = false
+    {"migrateByLocator", {"Migrate.z1|Z0", "Migrate.z2|Z1"}},
+    {"migrateMulti", {"Migrate.z1|Z0", "Migrate.z2|Z1"}},
+    {"dbStatisticsOnGrid", {"Stats.z1|Z0"}},
+    {"dbStatisticsOnGrid-num-radius", {"Stats.z1|Z0"}},
+    {"inverseDistance", {"InvDist.z1.estim|Z0"}},
+    {"nearestNeighbor", {"Nearest.z1.estim|Z0"}},
+    {"movingAverage", {"MovAve.z1.estim|Z0"}},
+    {"movingMedian", {"MovMed.z1.estim|Z0"}},
+    {"leastSquares", {"LstSqr.z1.estim|Z0"}},
+    {"dbg2gCopy", {"Copy.z1|Z0"}},
+    {"dbg2gExpand", {"Expand.z1|Z0"}},
+    {"dbg2gShrink", {"Shrink.z1|Z0"}},
+    {"dbg2gInterpolate", {"Interpolation|Z0"}},  // default naming convention has flag_varname = false
+    {"simfft", {"FFT.1|Z0", "FFT.2|Z1"}},
+    {"krimage", {"Filtering.z1|Z0"}},
+    {"dbMorpho", {"Morpho.z1.THRESH|Z0"}},
+    {"dbSmoother", {"Smooth.z1|Z0"}},
+    {"rawToGaussianByLocator", {"Y.z1|Z0"}},
+    {"rawToGaussian", {"Y.z1|Z0"}},
+    {"normalScore", {"Gaussian.z1|Z0"}},
+    {"gaussianToRawByLocator", {"Z.gauss|Z0"}},
+    {"rawToFactor", {"Factor.z1.1|Z0", "Factor.z1.2|Z1"}},
+    {"ConditionalExpectation", {"CE.G.estim.T-estim-0|?", "CE.G.estim.T-estim-1.5|?", "CE.G.estim.T-stdev-0|?", "CE.G.estim.T-stdev-1.5|?", "CE.G.estim.Q-estim-0|?", "CE.G.estim.Q-estim-1.5|?", "CE.G.estim.Q-stdev-0|?", "CE.G.estim.Q-stdev-1.5|?"}},
+    {"UniformConditioning", {"UC.Z.estim.T-estim-0|?", "UC.Z.estim.T-estim-1.5|?", "UC.Z.estim.T-stdev-0|?", "UC.Z.estim.T-stdev-1.5|?", "UC.Z.estim.Q-estim-0|?", "UC.Z.estim.Q-estim-1.5|?", "UC.Z.estim.Q-stdev-0|?", "UC.Z.estim.Q-stdev-1.5|?"}},
+    {"DisjunctiveKriging", {"DK.T-estim-0|?", "DK.T-estim-1.5|?", "DK.T-stdev-0|?", "DK.T-stdev-1.5|?", "DK.Q-estim-0|?", "DK.Q-estim-1.5|?", "DK.Q-stdev-0|?", "DK.Q-stdev-1.5|?"}},
+    {"krigingFactors", {"KD.Factor.z1.1.estim|Z0", "KD.Factor.z1.2.estim|Z1", "KD.Factor.z1.1.stdev", "KD.Factor.z1.2.stdev"}},
+    {"kribayes", {"Bayes.z1.estim|Z0", "Bayes.z1.stdev"}},
+    {"krigprof", {"KrigProf.z1.estim|Z0", "KrigProf.z1.stdev"}},
+    {"kriggam", {"KrigGam.z1.estim|Z0", "KrigGam.z1.stdev"}},
+    {"simbayes", {"SimBayes.z1.1|Z0", "SimBayes.z1.2|Z1"}},
     {"global_kriging", {}},
     {"global_arithmetic", {}},
-    {"dbRegression", {"Regr.z1"}},
+    {"dbRegression", {"Regr.z1|Z0"}},
+    {"dbRegression-db2-smaller", {"Regr.z1|Z0"}},
+    {"dbRegression-db2-larger", {"Regr.z1|Z0"}},
+    {"migrateByAttribute", {"Migrate.z1|Z0"}},
+    {"kriging-larger-input", {"Kriging.z1.estim|Z0", "Kriging.z1.stdev"}},
     {"simuPost", {"Post.Var1.Mean", "Post.Var2.Mean"}},
-    {"tessellation_voronoi", {"Voronoi"}},
-    {"tessellation_poisson", {"Poisson"}},
-    {"substitution", {"SimSub"}},
+    {"tessellation_voronoi", {"Voronoi|Z0"}},
+    {"tessellation_poisson", {"Poisson|Z0"}},
+    {"substitution", {"SimSub|Z0"}},
     {"simulation_refine", {}},  // the result is a new data base; the input grid must stay as it is
-    {"fluid_propagation", {"Eden.Fluid", "Eden.Date"}},
+    {"fluid_propagation", {"Eden.Fluid|?", "Eden.Date|?"}},
   };
   return E;
 }
+static std::string exp_name(const std::string& e) { size_t p = e.find('|'); return p == std::string::npos ? e : e.substr(0, p); }
+static std::string exp_role(const std::string& e) { size_t p = e.find('|'); return p == std::string::npos ? std::string("") : e.substr(p + 1); }
 // calculators which accept the same data base as input and output
 static bool same_ok(const std::string& c)
 {
@@ -376,8 +401,9 @@ static bool is_dedup_of(const std::string& got, const std::string& e)
 
 // ------------------------------------------------------------------------------------------------------------
 // prior contents of the data bases
-static const char* PRIOR_NAME[] = {"plain", "every-output-name-already-used", "selections", "roles-used-temporarily-already-present", "extra-columns-in-the-middle", "dbin-is-dbout"};
-static const int NPRIOR = 6;
+static const char* PRIOR_NAME[] = {"plain", "every-output-name-already-used", "selections", "roles-used-temporarily-already-present", "extra-columns-in-the-middle", "dbin-is-dbout",
+                                   "pure-inputs-have-5-more-columns", "output-db-has-5-more-columns"};
+static const int NPRIOR = 8;
 static bool apply_prior(int p, World& w, const Scenario& s)
 {
   if (p == 5)
@@ -386,13 +412,23 @@ static bool apply_prior(int p, World& w, const Scenario& s)
     delete w.dbout; w.dbout = w.dbin;
     return true;
   }
+  if (p == 6 || p == 7)
+  {
+    // the UIDs of the variables created in one data base now also exist in the other one(s)
+    std::vector<Db*> t;
+    if (p == 7) { if (w.dbout) t.push_back(w.dbout); }
+    else { if (w.dbin && w.dbin != w.dbout) t.push_back(w.dbin); for (Db* a : w.aux) t.push_back(a); }
+    if (t.empty()) return false;
+    for (Db* d : t) d->addColumnsByConstant(5, 3.5, "more", ELoc::UNKNOWN);
+    return true;
+  }
   if (p == 0 || w.dbout == nullptr) return true;
   int no = w.dbout->getSampleNumber();
   if (p == 1)
   {
     auto it = expected_names().find(s.calc);
     if (it == expected_names().end() || it->second.empty()) return false;
-    for (auto& n : it->second) w.dbout->addColumnsByConstant(1, 42., n, ELoc::UNKNOWN);
+    for (auto& n : it->second) w.dbout->addColumnsByConstant(1, 42., exp_name(n), ELoc::UNKNOWN);
   }
   else if (p == 2)
   {
@@ -491,7 +527,7 @@ static std::string snapdiff(const std::string& a, const std::string& b)
 
 struct Report { std::vector<std::pair<std::string, std::string>> viol; std::vector<std::string> outcomes; bool exercised = false; };
 
-static void destroy(World& w) { delete w.produced; if (w.dbout != w.dbin) delete w.dbout; delete w.dbin; delete w.model; delete w.neigh; w = World(); }
+static void destroy(World& w) { delete w.produced; for (Db* a : w.aux) delete a; if (w.dbout != w.dbin) delete w.dbout; delete w.dbin; delete w.model; delete w.neigh; w = World(); }
 
 // one complete case, run inside the child. fail = index of the hook call to fail (0 none), sab = sabotage (-1 none)
 static void run_case(const Scenario& s, int prior, int fail, int sab, Report& R)
@@ -503,6 +539,7 @@ static void run_case(const Scenario& s, int prior, int fail, int sab, Report& R)
   if (sab >= 0 && !apply_sabotage(sab, w)) { R.outcomes.push_back("sabotage-not-applicable"); return; }
   bool same = w.dbin == w.dbout;
   std::string bin = snap(w.dbin), bout = snap(w.dbout);
+  std::vector<std::string> baux; for (Db* a : w.aux) baux.push_back(snap(a));
   std::vector<ColInfo> cout0 = columns(w.dbout);
 
   g_calls = 0; g_points.clear(); g_failAt = fail;
@@ -525,6 +562,8 @@ static void run_case(const Scenario& s, int prior, int fail, int sab, Report& R)
     bool clean = true;
     if (ain != bin) { clean = false; R.viol.push_back({"rollback:" + s.calc + ":" + label, ctx + " : dbin differs after the reported failure:" + snapdiff(bin, ain)}); }
     if (!same && aout != bout) { clean = false; R.viol.push_back({"rollback:" + s.calc + ":" + label, ctx + " : dbout differs after the reported failure:" + snapdiff(bout, aout)}); }
+    for (size_t k = 0; k < w.aux.size(); k++)
+      if (snap(w.aux[k]) != baux[k]) { clean = false; R.viol.push_back({"rollback:" + s.calc + ":" + label, ctx + " : the auxiliary input data base #" + std::to_string(k + 1) + " differs after the reported failure:" + snapdiff(baux[k], snap(w.aux[k]))}); }
     R.outcomes.push_back(clean ? "failed-clean" : "failed-dirty");
     if (clean && injected)
     {
@@ -535,7 +574,9 @@ static void run_case(const Scenario& s, int prior, int fail, int sab, Report& R)
       if (w.produced) { delete w.produced; w.produced = nullptr; }
       g_calls = 0; g_points.clear();
       int r3 = s.call(f);
-      if (r2 != r3 || snap_nouid(w.dbout) != snap_nouid(f.dbout) || snap_nouid(w.dbin) != snap_nouid(f.dbin))
+      bool auxsame = true;
+      for (size_t k = 0; k < w.aux.size() && k < f.aux.size(); k++) if (snap_nouid(w.aux[k]) != snap_nouid(f.aux[k])) auxsame = false;
+      if (r2 != r3 || !auxsame || snap_nouid(w.dbout) != snap_nouid(f.dbout) || snap_nouid(w.dbin) != snap_nouid(f.dbin))
         R.viol.push_back({"reuse-after-failure:" + s.calc + ":" + label, ctx + " : repeating the call on the same objects returns " + std::to_string(r2) + " (fresh objects: " + std::to_string(r3) + ") or gives different data bases:" + snapdiff(snap_nouid(f.dbout), snap_nouid(w.dbout))});
       else R.outcomes.push_back("reuse-after-failure-identical");
       destroy(f);
@@ -546,6 +587,8 @@ static void run_case(const Scenario& s, int prior, int fail, int sab, Report& R)
     // success
     if (sab >= 0) R.exercised = true;
     if (!same && ain != bin) R.viol.push_back({"success-changes-dbin:" + s.calc, ctx + " : the input data base differs after a successful call:" + snapdiff(bin, ain)});
+    for (size_t k = 0; k < w.aux.size(); k++)
+      if (snap(w.aux[k]) != baux[k]) R.viol.push_back({"success-changes-input:" + s.calc, ctx + " : the auxiliary (pure input) data base #" + std::to_string(k + 1) + " differs after a successful call:" + snapdiff(baux[k], snap(w.aux[k]))});
     std::vector<ColInfo> c1 = columns(w.dbout);
     int kept = 0;
     for (auto& o : cout0)
@@ -565,23 +608,39 @@ static void run_case(const Scenario& s, int prior, int fail, int sab, Report& R)
     if (sab < 0 && itE != expected_names().end())
     {
       // exactly the documented output variables, with the documented names, and nothing else
-      std::vector<std::string> got;
-      for (auto& n : c1) { bool old = false; for (auto& o : cout0) if (o.uid == n.uid) old = true; if (!old) got.push_back(n.name); }
+      std::vector<std::string> got, gotrole;
+      for (size_t ic = 0; ic < c1.size(); ic++)
+      {
+        bool old = false;
+        for (auto& o : cout0) if (o.uid == c1[ic].uid) old = true;
+        if (old) continue;
+        got.push_back(c1[ic].name);
+        ELoc lt; int li;
+        gotrole.push_back(w.dbout->getLocatorByColIdx((int)ic, &lt, &li) ? std::string(lt.getKey()) + std::to_string(li) : std::string(""));
+      }
       std::vector<std::string> want = itE->second;
       std::vector<char> used(got.size(), 0);
       bool ok = got.size() == want.size();
-      for (auto& e : want)
+      std::string rolebad;
+      for (auto& spec : want)
       {
+        std::string e = exp_name(spec), er = exp_role(spec);
         bool f = false;
         for (size_t k = 0; k < got.size() && !f; k++)
-          if (!used[k] && (got[k] == e || (prior == 1 && is_dedup_of(got[k], e)))) { used[k] = 1; f = true; }
+          if (!used[k] && (got[k] == e || (prior == 1 && is_dedup_of(got[k], e))))
+          {
+            used[k] = 1; f = true;
+            if (er != "?" && gotrole[k] != er && prior != 5) rolebad += " '" + got[k] + "' holds role '" + gotrole[k] + "' (documented: '" + er + "')";
+          }
         if (!f) ok = false;
       }
+      if (ok && !rolebad.empty())
+        R.viol.push_back({"success-output-roles:" + s.calc, ctx + " : roles of the output variables:" + rolebad});
       if (!ok)
       {
         std::string g, x;
         for (auto& n : got) g += " '" + n + "'";
-        for (auto& n : want) x += " '" + n + "'";
+        for (auto& n : want) x += " '" + exp_name(n) + "'";
         std::string key = ret == NOSTATUS ? "rollback:" + s.calc + ":temporaries-after-success" : "success-output-names:" + s.calc;
         R.viol.push_back({key, ctx + " : variables added to dbout:" + (g.empty() ? " (none)" : g) + " ; documented:" + (x.empty() ? " (none)" : x)});
       }
